@@ -6,6 +6,7 @@ import Mathlib.Tactic.Ring
 import Mathlib.Algebra.Ring.Basic
 import Qvnt.Lemmas.Queue
 import Qvnt.Lemmas.GenInt.MacrosDisjoint
+import Qvnt.Lemmas.GenInt.MacrosInv
 import Qvnt.Lemmas.GenInt.int_process_nodes_eq
 
 set_option linter.unusedSectionVars false
@@ -15,7 +16,7 @@ variable {R : Type}
 section proc
 variable [Add R] [Sub R] [Mul R] [Neg R] [Div R] [ExprFns R] [AngleFns R]
 
-theorem int_ast_changes_eq [Zero R] [One R] [Consts R] (s c : Interp R) (hd : MacrosDisjoint s c) (ast : List (Node R)) :
+theorem int_ast_changes_eq [Zero R] [One R] [Consts R] (s c : Interp R) (hd : MacrosInv s c) (ast : List (Node R)) :
     int_ast_changes s c ast = (Interp.astChanges s c ast).toE := by
   unfold int_ast_changes Interp.astChanges
   simp only [int_process_nodes_eq s c hd]
